@@ -166,6 +166,11 @@ def r4_input_file(cx):
     gb = F.body(g)
     tk = gb.calls(r"Read>::take$")
     rw = gb.calls(r"InputFile as std::io::Seek>::rewind$", r"Seek for std::boxed::Box<creator::InputFile>>::rewind$")
+    # or the same thing spelled out: InputFile's own seek(SeekFrom::Start(0)) (range coordinates, see range-coordinates below)
+    for i, t in gb.calls(r"InputFile as std::io::Seek>::seek$", r"Seek for std::boxed::Box<creator::InputFile>>::seek$"):
+        sv = streams.seek_variant(gb, t)
+        if sv[0] == "Start" and op_const_deep(gb, sv[1]) == 0:
+            rw.append((i, t))
     ok = len(tk) == 1 and len(rw) == 1 and gb.dominates(rw[0][0], tk[0][0]) and ("field", "len") in gb.origins(tk[0][1]["args"][1], through_calls=False)
     cx.ob("R4", "R4/file-source-take-len", ok, g, "get_file_source rewinds to the range origin (InputFile's own rewind) then takes exactly self.len bytes")
     # origin-relative coordinates of the Seek impl (seek returns the absolute file position, so the
